@@ -272,6 +272,15 @@ def r3_collector(F, res):
         else:
             res.violation(rid, "collect/%s" % variant, "existing %s items are recorded in %s (key %s), expected their ident in %s" % (
                 variant, sorted(sets), sorted(idents), exp), main.loc())
+    # names can also be in the file through `use` (a user who moved a type or an action into another module and re-exports
+    # it): they are existing names all the same - appended again they are defined twice (D52)
+    if got:
+        if "Use" in got:
+            res.ok(rid, "collect/Use", main.loc(), "names imported with `use` are recorded")
+        else:
+            res.violation(rid, "collect/Use", "names brought into the actions file with `use` are not recorded as existing: the type and "
+                          "the action of that name are appended again and the name is defined twice (`pub use super::common::{Num, "
+                          "num};` + regeneration)", main.loc())
     for variant in got:
         if variant not in COLLECT_SPEC:
             res.ok(rid, "collect/%s" % variant, main.loc(), "additional kind recorded")
